@@ -121,15 +121,18 @@ CHECKS = {
         'normalised POSIX form.',
    design='5/C19'),
  'C09': dict(
-   technique='Coq proof (write emission depends on the compiler state only through the tracked shutter; sound history-independence monitor) + history-level snapshots of real objects, files and reported numbers',
+   technique='Coq proof (write emission depends on the compiler state only through the tracked shutter; sound history-independence monitor) + source translator with a proved statement for Device.pgm (the reported estimate is rebuilt from nothing on every export) + history-level snapshots of real objects, files and reported numbers',
    text='Props/C09.v: what the modelled write emits depends on the compiler state only through the shutter flag, hence writing '
         'the same matrix twice emits the same instructions twice; the history monitor (consistentb) is proved sound: when it '
         'accepts, every observed result is a function of the operation alone. Tie to /repo: devices with waveguides, markers and '
         'a (U)trench column and a non-zero origin shift go through random histories of write / transform / plot2d / plot3d / pgm '
         '/ xlsx / toolpath / fabrication_time calls with repeats; digests of results, exported file trees, spreadsheet cells and '
         'reported lengths/times are checked for history independence and digests of every array/object/list for being '
-        'bit-identical before and after each call.',
-   note='Trusted: Coq kernel; SHA-1 digests and the snapshot code in harness/c09.py; plotly figures digested through their numeric '
+        'bit-identical before and after each call. SOURCE TIE: Device.pgm is re-translated from /repo/src/femto/device.py on every run '
+        '(SrcRp.v) and EquivRp.v proves SRC_C09_device_pgm / _state_independent / _repeat / _history / _log: after an export the '
+        'estimate is the symbolic sum 0.0 + t_1 + ... of the _fabtime each writer holds after its own pgm(), read in the order of '
+        'self.writers, whatever the device held before and however many exports preceded; each export runs every writer once.',
+   note='Trusted: Coq kernel; harness/py2coq.py (group SrcRp.v) and coq/tie/RpState.v (float + kept symbolic); SHA-1 digests and the snapshot code in harness/c09.py; plotly figures digested through their numeric '
         'trace data. Purity of numpy/shapely internals is observed, not proved.',
    design='5/C09'),
  'C16': dict(
